@@ -49,6 +49,7 @@ void updateQuantizationInfo(int quant_intervals)
 {
 	exe_params->intvCapacity = quant_intervals;
 	exe_params->intvRadius = quant_intervals/2;
+	SZ_VERIF_YIELD(3);
 }
 
 double computeABSErrBoundFromPSNR(double psnr, double threshold, double value_range)
